@@ -79,10 +79,14 @@ func runC15(c *Ctx) {
 	ktys := []*Node{i64(0), i64(1), i64(2), i64(4), i64(99), refcbor.NTstr("EC2")}
 	crvs := []*Node{nil, i64(0), i64(1), i64(2), i64(3), i64(4), i64(5), i64(6), i64(7), i64(8), i64(-1), refcbor.NTstr("P-256"),
 		// (from here on: reduced key_ops dimension) the registered Brainpool curves and unassigned values
-		i64(256), i64(257), i64(258), i64(259), i64(260), i64(1000), i64(-65537)}
+		i64(256), i64(257), i64(258), i64(259), i64(260), i64(1000), i64(-65537),
+		// label -1 holding a byte string: the k of a symmetric key (kty 4), next to signing material and alg
+		refcbor.NBstr([]byte("0123456789abcdef"))}
 	algs := []*Node{nil, i64(0), i64(-7), i64(-35), i64(-36), i64(-8), i64(-37), i64(99),
 		// (reduced key_ops dimension) text algorithms, ECDSA with other hashes, algorithms of other families
-		refcbor.NTstr("ES256"), refcbor.NTstr("ES512"), refcbor.NTstr("EdDSA"), refcbor.NTstr(""), i64(-47), i64(-257), i64(5), i64(1)}
+		refcbor.NTstr("ES256"), refcbor.NTstr("ES512"), refcbor.NTstr("EdDSA"), refcbor.NTstr(""), i64(-47), i64(-257), i64(5), i64(1),
+		// key agreement algorithms (ECDH-ES / ECDH-SS families), RFC 9864 twins of the signature algorithms
+		i64(-25), i64(-27), i64(-29), i64(-31), i64(-34), i64(-9), i64(-19), i64(-51), i64(-52)}
 	const crvCore, algCore = 12, 8
 	opss := []*Node{nil, refcbor.NArr(), refcbor.NArr(i64(1)), refcbor.NArr(i64(2)), refcbor.NArr(i64(1), i64(2)), refcbor.NArr(refcbor.NTstr("sign")), refcbor.NArr(refcbor.NTstr("verify"), i64(1)),
 		refcbor.NArr(i64(3)), refcbor.NArr(i64(77), i64(2)), refcbor.NArr(refcbor.NTstr("bogus"))}
